@@ -184,13 +184,17 @@ def cell_pool():
         code_cell('key = b"a\x00b"\nvalue = 1\nprint(key, value)\n', [out_stream('a\x00b 1\n')], 11),
         # short string payloads that are not text: a 56-character base64 image, a vendor JSON string
         code_cell('viz()\n', [out_display(3)], 10),
+        # JSON payloads that are not containers: a number, null and a boolean are valid values of a +json media type
+        code_cell('len(rows)\n', [{'output_type': 'display_data', 'metadata': {},
+                                   'data': {'application/json': 42, 'application/vnd.flags.v1+json': None, 'application/vnd.done.v1+json': True,
+                                            'text/plain': '42 rows in the result set\nof the last query\n'}}], 12),
     ]
 
 
 def base_notebooks(maxcells=3, minors=(5, 4, 2)):
     pool = cell_pool()
     out = []
-    combos = [(), (0,), (1,), (6,), (11,), (1, 6), (2, 3), (7, 4), (11, 6), (1, 2, 6), (3, 9, 8), (4, 7, 5), (0, 1, 2, 3), (6, 2, 5, 7), (12,), (13, 12), (1, 12, 13)]
+    combos = [(), (0,), (1,), (6,), (11,), (1, 6), (2, 3), (7, 4), (11, 6), (1, 2, 6), (3, 9, 8), (4, 7, 5), (0, 1, 2, 3), (6, 2, 5, 7), (12,), (13, 12), (1, 12, 13), (17,), (1, 17)]
     for ci, combo in enumerate(combos):
         if len(combo) > maxcells:
             continue
@@ -293,7 +297,7 @@ def apply_edit(nb, op, rnd, where=None):
     elif op == 'nested_named_keys':
         # keys that merely share the name of an ignorable key, deeper in the cell (Colab-style metadata.id, JSON payloads)
         c = cells[i]
-        tgt = [o for o in c.get('outputs', []) if o['output_type'] in ('display_data', 'execute_result') and 'application/json' in o['data']]
+        tgt = [o for o in c.get('outputs', []) if o['output_type'] in ('display_data', 'execute_result') and isinstance(o['data'].get('application/json'), dict)]
         if tgt and rnd.random() < 0.5:
             js = tgt[0]['data']['application/json']
             js['id'] = js.get('id', 0) + 1
@@ -371,6 +375,8 @@ def apply_edit(nb, op, rnd, where=None):
                     for mk in [m for m in o['data'] if m != m.lower() and isinstance(o['data'][m], str)]:
                         if rnd.random() < 0.7:
                             o['data'][mk] = o['data'][mk] + rnd.choice(['$b$\n', '%'])
+                    if isinstance(o['data'].get('application/json'), int) and rnd.random() < 0.4:
+                        o['data']['application/json'] += 1          # a different number (never a Python-equal one: finding C02-pyeq)
                     if 'image/png' in o['data'] and rnd.random() < 0.5:
                         o['data']['image/png'] = B64_2 if o['data']['image/png'] == B64 else B64
             else:
